@@ -269,7 +269,7 @@ func runC17(r *core.Run) {
 		K   int `json:"k"`
 		N   int `json:"n"`
 	}
-	core.Clause(r, "long-sequences", core.Opts{Rule: "position-dependent sequences (mixed case, some N) of 1000, 65535..65538 and 200000 bases x k in {1, 15, 21, 32} x n in {1, 100, 1000, 100000}: View() == bottom-n reference; the same sequence split into two Add calls at every listed cut gives the same sketch; non-trivial = all"},
+	core.Clause(r, "long-sequences", core.Opts{Rule: "position-dependent sequences (mixed case, some N) of 1000, 65535..65538 and 200000 bases x k in {1, 15, 21, 32} x n in {1, 100, 1000, 100000}, and of 2^20+5000 (thorough also 2^22+3, 2^24+3) bases x k in {15, 21} x n in {1000, twice the length (the sketch then holds every distinct k-mer)}: View() == bottom-n reference; the same sequence split into two Add calls at every listed cut gives the same sketch; non-trivial = all"},
 		func(emit func(longCase) bool) {
 			for _, l := range []int{1000, 65535, 65536, 65537, 65538, 200000} {
 				for _, k := range []int{1, 15, 21, 32} {
@@ -280,11 +280,27 @@ func runC17(r *core.Run) {
 					}
 				}
 			}
+			// beyond 2^20 (thorough: 2^22, 2^24) bases in ONE sequence, with a sketch large enough to hold
+			// every distinct k-mer: a k-mer lost at an internal chunk boundary cannot hide among the others
+			for _, l := range core.Pick(r, []int{1<<20 + 5000}, []int{1<<20 + 5000, 1<<22 + 3, 1<<24 + 3}) {
+				for _, k := range []int{15, 21} {
+					if !emit(longCase{l, k, 2 * l}) || !emit(longCase{l, k, 1000}) {
+						return
+					}
+				}
+			}
 		},
 		func(c longCase) core.Outcome {
 			seq := make([]byte, c.Len)
+			x := uint64(0x9E3779B97F4A7C15) // fixed xorshift stream for the inputs above 60000 bases: the arithmetic pattern below is periodic (~56 k), and in a periodic sequence every k-mer occurs again elsewhere
 			for i := range seq {
 				seq[i] = "ACGTTGCAAGCTCCGATTAGGCAT"[(i*5+i/24+i*i/97)%24]
+				if c.Len > 60000 {
+					x ^= x << 13
+					x ^= x >> 7
+					x ^= x << 17
+					seq[i] = "ACGT"[x>>62]
+				}
 				if i%17 == 3 {
 					seq[i] += 'a' - 'A'
 				}
@@ -412,6 +428,67 @@ func runC17(r *core.Run) {
 			mash.Add(mh, 2, in)
 			mash.Add(mh, 2, in)
 			return fmt.Sprint(mh.View())
+		})
+
+	type memCase struct {
+		A      core.S `json:"seq_a"`
+		B      core.S `json:"seq_b"`
+		Layout string `json:"layout"`
+		N      int    `json:"n"`
+		K      int    `json:"k"`
+	}
+	core.Clause(r, "caller-memory", core.Opts{Rule: "the two sequences passed to Sequences / Add are windows of ONE caller buffer (adjacent, with a gap, b before a, a with spare capacity that is b): the sketch equals the sketch of separately allocated copies and the buffer is unchanged; every ordered pair from a pool of 12 inputs x 4 layouts x (n,k) in {(3,2),(8,3),(2,1)}; non-trivial = both non-empty"},
+		func(emit func(memCase) bool) {
+			pool := []string{"", "A", "ACGT", "acgtn", "GATTACA", "TTTTTT", "ACGTACGTAC", "NNNN", "CCGG", "gattaca", "ACGTNACGT", "TGCATGCA"}
+			for _, a := range pool {
+				for _, b := range pool {
+					for _, l := range []string{"adjacent", "gap", "b-before-a", "a-has-spare-capacity-holding-b"} {
+						for _, nk := range [][2]int{{3, 2}, {8, 3}, {2, 1}} {
+							if !emit(memCase{core.S(a), core.S(b), l, nk[0], nk[1]}) {
+								return
+							}
+						}
+					}
+				}
+			}
+		},
+		func(c memCase) core.Outcome {
+			a0, b0 := c.A.B(), c.B.B()
+			want := slices.Clone(mash.Sequences(c.N, c.K, slices.Clone(a0), slices.Clone(b0)).View())
+			buf := make([]byte, 0, len(a0)+len(b0)+8)
+			var a, b []byte
+			switch c.Layout {
+			case "adjacent":
+				buf = append(append(buf, a0...), b0...)
+				a, b = buf[:len(a0):len(a0)], buf[len(a0):]
+			case "gap":
+				buf = append(append(append(buf, a0...), '#', '#'), b0...)
+				a, b = buf[:len(a0):len(a0)], buf[len(a0)+2:]
+			case "b-before-a":
+				buf = append(append(buf, b0...), a0...)
+				b, a = buf[:len(b0):len(b0)], buf[len(b0):]
+			default:
+				buf = append(append(buf, a0...), b0...)
+				a, b = buf[:len(a0)], buf[len(a0):] // cap(a) reaches over b
+			}
+			snapshot := slices.Clone(buf)
+			var got, got2 []uint64
+			if p := catch(func() {
+				got = slices.Clone(mash.Sequences(c.N, c.K, a, b).View())
+				mh := mash.Sequences(c.N, c.K)
+				mash.Add(mh, c.K, a)
+				mash.Add(mh, c.K, b)
+				got2 = slices.Clone(mh.View())
+			}); p != "" {
+				return core.Failf("Sequences(%d,%d) on %q and %q laid out as %s: panic: %s", c.N, c.K, a0, b0, c.Layout, p)
+			}
+			if !slices.Equal(buf, snapshot) {
+				return core.Failf("Sequences/Add(%d,%d) on %q and %q laid out as %s changed the caller's buffer: %q -> %q", c.N, c.K, a0, b0, c.Layout, snapshot, buf)
+			}
+			if !slices.Equal(got, want) || !slices.Equal(got2, want) {
+				return core.Failf("Sequences(%d,%d) on %q and %q laid out as %s in one buffer = %v (Add, Add: %v), on separate copies %v", c.N, c.K, a0, b0, c.Layout, got, got2, want)
+			}
+			return core.Outcome{Class: c.Layout, Nontrivial: len(a0) > 0 && len(b0) > 0, Evals: 3}
 		})
 
 	// Distance laws on all pairs of full sketches
